@@ -203,7 +203,8 @@ pub const URIS_TINY: &[&str] = &["", "u"];
 pub const PREFIXES: &[&str] = &["", "p", "q", "r", "n0", "n1"];
 pub const PREFIXES_TINY: &[&str] = &["", "p"];
 /// with multi-byte prefixes (byte offsets != character offsets in qualified names)
-pub const PREFIXES_WIDE: &[&str] = &["", "p", "q", "r", "n0", "n1", "é", "пр", "名"];
+// (round 13) prefixes that merely START like the reserved xml prefix
+pub const PREFIXES_WIDE: &[&str] = &["", "p", "q", "r", "n0", "n1", "é", "пр", "名", "xmlish", "XML", "Xml2", "xmlns2"];
 
 #[derive(Clone, Copy, Debug, PartialEq, Eq)]
 pub enum Scoping {
